@@ -222,6 +222,10 @@ def replay(c, trace):
     real = run_real(c, trace)
     conc = Concrete(c)
     env = conc.initial()
+    # rigid / unconstrained-init ghosts: use the value recorded with the witness (row 0, key "g.<name>"), default 0
+    for n, (v, init) in c.ghosts.items():
+        if init is None and trace and isinstance(trace[0].get("g." + n), int) and z3.is_bv(v):
+            env[str(v)] = (v, z3.BitVecVal(trace[0]["g." + n], v.size()))
     maxlvl = max([c.input_level(e) for _, e, _ in c.ensures] + [0])
     out = {"agree": True, "mismatch": "", "cycles": [], "violated": []}
     for t in range(len(trace)):
